@@ -46,7 +46,9 @@ def configs(tier):
     return [(r, t) for r in (1, 2, 3, 4, 5, 6) for t in (0.5, 2, 6)]
 
 
-def make_run(retries, timeout):
+def make_run(retries, timeout, setup=0):
+    """setup: (virtual) seconds every create_datagram_endpoint() takes - time
+    that passes outside the per-attempt wait"""
     from puresnmp.transport import Endpoint, send_udp
 
     delta = timeout / 4
@@ -54,6 +56,7 @@ def make_run(retries, timeout):
     def run(ctx):
         CLOCK.reset()
         loop = VLoop()
+        loop.endpoint_delay = setup
         chosen = []
         injected = set()
         after = set()
@@ -151,7 +154,7 @@ def make_run(retries, timeout):
 
             task.add_done_callback(mark)
             try:
-                loop.run_until_idle(horizon=t0 + (retries + 3) * timeout + 10)
+                loop.run_until_idle(horizon=t0 + (retries + 3) * (timeout + setup) + 10)
             except Stalled:
                 stalled = True
             if task.done():
@@ -163,7 +166,7 @@ def make_run(retries, timeout):
                     result = task.result()
             leftover = [h for h in loop.pending_timers() if h not in injected]
             unclosed = [i for i, tr in enumerate(loop.transports) if not tr.close_calls]
-            sends = [s for tr in loop.transports for s in tr.sent]
+            sends = sorted(((at, p, i) for i, tr in enumerate(loop.transports) for at, p, _ in tr.sent), key=lambda x: x[0])
             if not task.done():
                 task.cancel()
                 try:
@@ -176,7 +179,7 @@ def make_run(retries, timeout):
         logged = [str(c.get("message")) + ": " + repr(c.get("exception")) for c in loop.logged]
         loop.close()
 
-        violations = judge(retries, timeout, delta, chosen, result, exc, done_at, task_done, sends, unclosed, leftover, logged, events)
+        violations = judge(retries, timeout, delta, chosen, result, exc, done_at, task_done, sends, unclosed, leftover, logged, events, t0, setup)
         ename = type(exc).__name__ if isinstance(exc, BaseException) else exc
         obs = (ename, result, done_at, len(sends), len(unclosed), len(logged))
         return obs, violations
@@ -184,7 +187,7 @@ def make_run(retries, timeout):
     return run
 
 
-def judge(retries, timeout, delta, chosen, result, exc, done_at, task_done, sends, unclosed, leftover, logged, events):
+def judge(retries, timeout, delta, chosen, result, exc, done_at, task_done, sends, unclosed, leftover, logged, events, t0=0.0, setup=0):
     """The oracle is phrased over what *really happened* - the datagrams and
     errors that reached a socket the call still had open, in order - not over
     an assumed structure of the sender (one socket per attempt or one for all
@@ -217,10 +220,11 @@ def judge(retries, timeout, delta, chosen, result, exc, done_at, task_done, send
         return out
     # every transmission after the first starts exactly when the attempt
     # before it has had its `timeout` seconds
-    first = sends[0][0]
-    for k, (at, _, _) in enumerate(sends):
-        if k and at - first != k * timeout:
-            bad("retransmission-at-wrong-instant", attempt=k + 1, at=at - first)
+    # (plus the time it took to set a new socket up, where one was set up)
+    for k in range(1, len(sends)):
+        gap = sends[k][0] - sends[k - 1][0]
+        if gap != timeout + (setup if sends[k][2] != sends[k - 1][2] else 0):
+            bad("retransmission-at-wrong-instant", attempt=k + 1, at=sends[k][0] - t0, gap=gap)
             break
     # ---- the ending: walk what reached the call, in order ------------------
     for t, kind, payload, delivered, origin in events:
@@ -255,8 +259,8 @@ def judge(retries, timeout, delta, chosen, result, exc, done_at, task_done, send
         bad("timeout-not-raised")
     elif len(sends) != retries:
         bad("gave-up-before-retries-exhausted" if len(sends) < retries else "timeout-after-wrong-number-of-sends")
-    elif done_at != retries * timeout:
-        bad("timeout-at-wrong-instant", expected_at=retries * timeout)
+    elif done_at != (sends[-1][0] - t0) + timeout:
+        bad("timeout-at-wrong-instant", expected_at=(sends[-1][0] - t0) + timeout)
     return out
 
 
@@ -422,14 +426,25 @@ def shards(tier):
     for r, t in configs(tier):
         for first in range(len(OUTCOMES)):
             out.append({"retries": r, "timeout": t, "first": first, "tier": tier})
+    # once more with the application's logging at DEBUG (the sender hex-dumps
+    # what it sends and receives then): the smallest and the largest budget
+    for r, t in (configs(tier)[0], configs(tier)[-1]):
+        for first in range(len(OUTCOMES)):
+            out.append({"retries": r, "timeout": t, "first": first, "tier": tier, "lib_log": "DEBUG"})
+    out.append({"tier": tier, "client_family": True, "lib_log": "DEBUG"})
+    # time passes outside the per-attempt wait: every socket set-up takes a
+    # while (each attempt still gets its full `timeout` seconds)
+    for r, t, su in ((2, 0.5, 0.25), (3, 2, 3)) if tier == "quick" else ((2, 0.5, 0.25), (3, 2, 3), (4, 0.5, 1), (5, 2, 0.5)):
+        for first in range(len(OUTCOMES)):
+            out.append({"retries": r, "timeout": t, "first": first, "tier": tier, "setup": su})
     return out
 
 
-def closed_form_leaves(retries, timeout, first):
+def closed_form_leaves(retries, timeout, first, setup=0):
     """Independent count of the executions below the first choice: classify
     every outcome as terminal / non-terminal for this implementation by a
     two-attempt probe, then leaves(r) = term + nt * leaves(r-1)."""
-    probe = make_run(2, timeout)
+    probe = make_run(2, timeout, setup)
     nonterminal = []
     for k in range(len(OUTCOMES)):
         ctx, _, _ = explore.run_once(probe, (k,))
@@ -452,7 +467,7 @@ def run_shard(params, acc):
     if params.get("client_family"):
         run_client_family(acc)
         return
-    run = make_run(params["retries"], params["timeout"])
+    run = make_run(params["retries"], params["timeout"], params.get("setup", 0))
 
     def on_exec(ctx, obs, violations):
         acc.count(evaluations=1, nontrivial=1 if any(ctx.choices) else 0, traces=1)
@@ -463,7 +478,7 @@ def run_shard(params, acc):
     acc.count(evaluations=0, states=stats.nodes + stats.executions, transitions=stats.transitions)
     acc.maxi("max_depth", stats.max_depth)
     acc.bump("double_runs", stats.double_runs)
-    expected = closed_form_leaves(params["retries"], params["timeout"], params["first"]) if not found else stats.executions
+    expected = closed_form_leaves(params["retries"], params["timeout"], params["first"], params.get("setup", 0)) if not found else stats.executions
     if expected != stats.executions:
         # the closed form assumes that whether an outcome ends the call does
         # not depend on the attempts before it (true for a sender with one
@@ -482,7 +497,7 @@ def run_shard(params, acc):
         if seen[k] > 1:
             continue
         v = dict(v)
-        v["case"] = {"retries": params["retries"], "timeout": params["timeout"], "choices": list(choices)}
+        v["case"] = {"retries": params["retries"], "timeout": params["timeout"], "choices": list(choices), "setup": params.get("setup", 0)}
         acc.violation(v)
 
 
@@ -498,7 +513,7 @@ def replay(case):
         a = A()
         run_client_family(a)
         return a.v
-    run = make_run(case["retries"], case["timeout"])
+    run = make_run(case["retries"], case["timeout"], case.get("setup", 0))
     _, obs, violations = explore.run_once(run, case["choices"])
     return violations
 
